@@ -20,7 +20,7 @@ def execute(c, lines, base=0, fam="desc"):
     def keep(ev):
         stats["n"] += 1
         stats["max_alloc"] = max(stats["max_alloc"], ev.get("alloc", 0))
-        return not ev.get("agree", False) or ev.get("alloc", 0) > ALLOC_LIMIT + 64 * ev.get("len", 0)
+        return not ev.get("agree", False) or ev.get("alloc", 0) > ALLOC_LIMIT + 256 * ev.get("len", 0)
     res, deaths = c.run_worker(fam, items, keep=keep)
     return res, deaths, dict(items), stats
 
@@ -34,7 +34,7 @@ def report(c, res, deaths, items, fam="desc"):
             key = "%s:%s" % (case.get("inp", {}).get("kind", "file"), re.sub(r"[0-9]+", "#", first)[:60])
             seen[key] = seen.get(key, 0) + 1
             if seen[key] <= 2:
-                c.reproduce(fam, sc, lambda evs: any((not e.get("agree", True)) or e.get("alloc", 0) > ALLOC_LIMIT + 64 * e.get("len", 0) for e in evs))
+                c.reproduce(fam, sc, lambda evs: any((not e.get("agree", True)) or e.get("alloc", 0) > ALLOC_LIMIT + 256 * e.get("len", 0) for e in evs))
             c.report(key, first, dict({"case": case, "event": ev}, **c.rp(fam, items[sc])))
     for sc, d in deaths.items():
         case = json.loads(items[sc])
